@@ -26,30 +26,34 @@ fn variant_matches(pt: u8, p: &Packet<'_>) -> bool {
     }
 }
 
-type Fp = (u32, u64, u32, u8, usize, usize, Option<u8>, [u8; 4]);
+type Fp = (u32, u64, u32, u8, usize, usize, Option<u8>, u32);
+
+fn w(b: [u8; 4]) -> u32 {
+    u32::from_be_bytes(b)
+}
 
 fn fp_app(p: &App<'_>) -> Fp {
-    (p.ssrc(), 0, 0, p.subtype(), p.data().as_ptr() as usize, p.data().len(), p.padding(), p.name())
+    (p.ssrc(), 0, 0, p.subtype(), p.data().as_ptr() as usize, p.data().len(), p.padding(), w(p.name()))
 }
 fn fp_bye(p: &Bye<'_>) -> Fp {
     let (rp, rl) = p.reason().map_or((0, usize::MAX), |r| (r.as_ptr() as usize, r.len()));
-    (p.ssrcs().next().unwrap_or(0), 0, 0, p.count(), rp, rl, p.padding(), p.header_data())
+    (p.ssrcs().next().unwrap_or(0), 0, 0, p.count(), rp, rl, p.padding(), w(p.header_data()))
 }
 fn fp_rr(p: &ReceiverReport<'_>) -> Fp {
-    (p.ssrc(), 0, 0, p.n_reports(), p.length(), 0, p.padding(), p.header_data())
+    (p.ssrc(), 0, 0, p.n_reports(), p.length(), 0, p.padding(), w(p.header_data()))
 }
 fn fp_sr(p: &SenderReport<'_>) -> Fp {
-    (p.ssrc(), p.ntp_timestamp(), p.rtp_timestamp(), p.n_reports(), p.packet_count() as usize, p.octet_count() as usize, p.padding(), p.header_data())
+    (p.ssrc(), p.ntp_timestamp(), p.rtp_timestamp(), p.n_reports(), p.packet_count() as usize, p.octet_count() as usize, p.padding(), w(p.header_data()))
 }
 fn fp_tfb(p: &TransportFeedback<'_>) -> Fp {
-    (p.sender_ssrc(), 0, p.media_ssrc(), p.count(), p.length(), 0, p.padding(), p.header_data())
+    (p.sender_ssrc(), 0, p.media_ssrc(), p.count(), p.length(), 0, p.padding(), w(p.header_data()))
 }
 fn fp_pfb(p: &PayloadFeedback<'_>) -> Fp {
-    (p.sender_ssrc(), 0, p.media_ssrc(), p.count(), p.length(), 0, p.padding(), p.header_data())
+    (p.sender_ssrc(), 0, p.media_ssrc(), p.count(), p.length(), 0, p.padding(), w(p.header_data()))
 }
 fn fp_sdes(p: &Sdes<'_>) -> Fp {
     let first = p.chunks().next().map_or(0, |c| c.ssrc());
-    (first, 0, 0, p.count(), p.chunks().count(), p.length(), p.padding(), p.header_data())
+    (first, 0, 0, p.count(), p.chunks().count(), p.length(), p.padding(), w(p.header_data()))
 }
 
 macro_rules! target {
@@ -61,6 +65,9 @@ macro_rules! target {
             let d = &data[..len];
             s.assume((d[1] == PT_SDES) == SDES_IN);
             let pt = d[1];
+            let can_match = SDES_IN == ($pt == PT_SDES);
+            let can_other = !(SDES_IN && $pt == PT_SDES);
+            let mut seen = (false, false, false, false);
             let typed = <$ty>::parse(d);
             match Packet::parse(d) {
                 Ok(p) => {
@@ -71,14 +78,14 @@ macro_rules! target {
                         let a = conv.expect("conversion of the matching variant failed");
                         let b = typed.expect("generic parser accepted what the typed parser rejects");
                         assert!($fp(&a) == $fp(&b));
-                        vcover!(true, "matching variant converted");
+                        seen.0 = true;
                         forget((a, b));
                     } else if known(pt) {
                         match conv {
                             Err(e) => assert!(e == E::PacketTypeMismatch { actual: pt, requested: $pt }),
                             Ok(_) => panic!("a different known variant converted"),
                         }
-                        vcover!(true, "different known variant refused");
+                        seen.1 = true;
                         forget(typed);
                     } else {
                         // unknown packet: exactly what the typed parser returns on the same bytes
@@ -90,7 +97,7 @@ macro_rules! target {
                             (Err(a), Err(b)) => assert!(a == b),
                             _ => panic!("conversion of an unknown packet differs from the typed parser"),
                         }
-                        vcover!(true, "unknown packet converted through the typed parser");
+                        seen.2 = true;
                     }
                     // by-value conversion agrees with the by-reference one
                     let by_val: Result<$ty, E> = p.try_into();
@@ -113,12 +120,16 @@ macro_rules! target {
                             Err(t) => assert!(t == e),
                             Ok(_) => panic!("generic parser rejected what the typed parser accepts"),
                         }
-                        vcover!(true, "same rejection");
+                        seen.3 = true;
                     } else {
                         forget(typed);
                     }
                 }
             }
+            vcover!(!can_match || seen.0, "matching variant converted");
+            vcover!(!can_other || seen.1, "different known variant refused");
+            vcover!(SDES_IN || seen.2, "unknown packet converted through the typed parser");
+            vcover!(!can_match || seen.3, "same rejection");
         }
     };
 }
